@@ -515,8 +515,8 @@ PROPS = {
         "assumptions": ["tables with reciprocal extensions (every table produced from reads; others only compared with the model)"],
     },
     "C02": {
-        "lean_modules": ["Dbg.Props.C02", "Dbg.Props.C02b"],
-        "theorems": ["Compress.C02_order_independent", "Compress.C02_from_reads", "Compress.C02_components_seq", "Compress.C02_components", "Compress.C02_link_sym", "Compress.linkOf_sym", "Compress.noPanic"],
+        "lean_modules": ["Dbg.Props.C02", "Dbg.Props.C02b", "Dbg.Props.C02c"],
+        "theorems": ["Compress.C02_is_compressed", "Compress.C02_is_compressed_from_reads", "Compress.C02_order_independent", "Compress.C02_from_reads", "Compress.C02_components_seq", "Compress.C02_components", "Compress.C02_link_sym", "Compress.linkOf_sym", "Compress.noPanic"],
         "partial": [],
         "n_quick": 3000, "n_thorough": 200000,
         "nontrivial": _c01_nontrivial, "tags": _c01_tags, "shrink": _table_shrink,
@@ -583,7 +583,7 @@ PROPS = {
     },
     "C04": {
         "lean_modules": ["Dbg.Props.C04"],
-        "theorems": ["Pipeline.C04_sharded_eq_direct", "Pipeline.C04_payloads_agree", "Pipeline.C04_adjacencies_agree", "Compress.PGraph.adj_iff", "Compress.compressGraph_kdata", "Compress.sharded_result_ginv", "Pipeline.sigmasOK_identity", "Compress.sharded_eq_direct_abstract", "Compress.pgraph_recompress", "Compress.shard_sandwich", "Compress.pgraph_flatten", "Compress.PGraph.ginv", "Pipeline.C04_shard_tables", "Pipeline.C04_shard_filter", "Pipeline.shardCfg_default", "Filter.read_observations", "Filter.table_restrict", "Pipeline.C04_link_pieces", "Pipeline.C04_link_shard", "Pipeline.C04_link_recompress"],
+        "theorems": ["Pipeline.C04_final_is_compressed", "Pipeline.C04_sharded_eq_direct", "Pipeline.C04_payloads_agree", "Pipeline.C04_adjacencies_agree", "Compress.PGraph.adj_iff", "Compress.compressGraph_kdata", "Compress.sharded_result_ginv", "Pipeline.sigmasOK_identity", "Compress.sharded_eq_direct_abstract", "Compress.pgraph_recompress", "Compress.shard_sandwich", "Compress.pgraph_flatten", "Compress.PGraph.ginv", "Pipeline.C04_shard_tables", "Pipeline.C04_shard_filter", "Pipeline.shardCfg_default", "Filter.read_observations", "Filter.table_restrict", "Pipeline.C04_link_pieces", "Pipeline.C04_link_shard", "Pipeline.C04_link_recompress"],
         "partial": [],
         "n_quick": 1500, "n_thorough": 60000,
         "nontrivial": _c04_nontrivial, "tags": _c04_tags, "shrink": _reads_shrink(8),
